@@ -28,7 +28,9 @@ enum EF {
 
 struct Ledger {
     next_id: u32,
-    live: Vec<u32>,
+    /// live[id] for ids handed out in this run
+    live: Vec<bool>,
+    n_live: usize,
     constructed: u32,
     dropped: u32,
     double_drops: u32,
@@ -38,14 +40,17 @@ struct Ledger {
 }
 
 thread_local! {
-    static LEDGER: RefCell<Ledger> = RefCell::new(Ledger { next_id: 1, live: Vec::with_capacity(1024), constructed: 0, dropped: 0, double_drops: 0, decode_calls: 0, fault: EF::None, fired: false });
+    static LEDGER: RefCell<Ledger> = RefCell::new(Ledger { next_id: 1, live: vec![false; 8192], n_live: 0, constructed: 0, dropped: 0, double_drops: 0, decode_calls: 0, fault: EF::None, fired: false });
 }
 
 fn ledger_reset(fault: EF) {
     LEDGER.with(|l| {
         let mut l = l.borrow_mut();
         l.next_id = 1;
-        l.live.clear();
+        for x in l.live.iter_mut() {
+            *x = false;
+        }
+        l.n_live = 0;
         l.constructed = 0;
         l.dropped = 0;
         l.double_drops = 0;
@@ -94,7 +99,9 @@ impl Decode for Tr {
             let id = l.next_id;
             l.next_id += 1;
             l.constructed += 1;
-            l.live.push(id);
+            assert!((id as usize) < l.live.len(), "harness: ledger capacity");
+            l.live[id as usize] = true;
+            l.n_live += 1;
             id
         });
         Ok(Tr { id, payload, heap })
@@ -105,8 +112,9 @@ impl Drop for Tr {
     fn drop(&mut self) {
         let legit = LEDGER.with(|l| {
             let mut l = l.borrow_mut();
-            if let Some(p) = l.live.iter().position(|x| *x == self.id) {
-                l.live.swap_remove(p);
+            if l.live.get(self.id as usize).copied().unwrap_or(false) {
+                l.live[self.id as usize] = false;
+                l.n_live -= 1;
                 l.dropped += 1;
                 true
             } else {
@@ -275,6 +283,8 @@ fn ldecode<T: Decode + 'static>(inp: &mut dyn DynInput, _layers: &[Layer]) -> Re
 }
 
 const N_SEQ: &[usize] = &[0, 1, 2, 3, 8, 40];
+/// crosses the 16 KiB chunk window of Vec<Tr> (size_of::<Tr>() == 16: 1024 elements per chunk)
+const N_BIG: &[usize] = &[0, 1, 3, 40, 1100, 2100];
 const N_ONE: &[usize] = &[1];
 const N_SMALL: &[usize] = &[0, 1, 3, 8];
 
@@ -307,9 +317,9 @@ fn containers() -> Vec<LCont> {
         Box<[Tr; 40]>, Arr(40, bx(tr())), N_ONE;
         Rc<[Tr; 8]>, Arr(8, bx(tr())), N_ONE;
         Arc<[Tr; 8]>, Arr(8, bx(tr())), N_ONE;
-        Vec<Tr>, Seq(bx(tr())), N_SEQ;
-        VecDeque<Tr>, Seq(bx(tr())), N_SEQ;
-        BinaryHeap<Tr>, Seq(bx(tr())), N_SEQ;
+        Vec<Tr>, Seq(bx(tr())), N_BIG;
+        VecDeque<Tr>, Seq(bx(tr())), N_BIG;
+        BinaryHeap<Tr>, Seq(bx(tr())), N_BIG;
         LinkedList<Tr>, Seq(bx(tr())), N_SEQ;
         BTreeSet<Tr>, Seq(bx(tr())), N_SEQ;
         BTreeMap<Tr, Tr>, Map(bx(tr()), bx(tr())), N_SEQ;
@@ -394,17 +404,17 @@ fn one_run(c: &LCont, data: &[u8], src: &SourceSpec, ef: EF) -> Outcome {
     let mut foreign_panic = None;
     let (class, live_before_drop) = match r {
         Ok(Ok(v)) => {
-            let live = LEDGER.with(|l| l.borrow().live.len());
+            let live = LEDGER.with(|l| l.borrow().n_live);
             drop(v);
             ("ok", live)
         },
         Ok(Err(e)) => {
-            let live = LEDGER.with(|l| l.borrow().live.len());
+            let live = LEDGER.with(|l| l.borrow().n_live);
             drop(e);
             ("err", live)
         },
         Err(p) => {
-            let live = LEDGER.with(|l| l.borrow().live.len());
+            let live = LEDGER.with(|l| l.borrow().n_live);
             if p.downcast_ref::<crate::InjectedPanic>().is_none() {
                 foreign_panic = Some(if let Some(s) = p.downcast_ref::<&str>() { s.to_string() } else if let Some(s) = p.downcast_ref::<String>() { s.clone() } else { "?".into() });
             }
@@ -422,7 +432,7 @@ fn one_run(c: &LCont, data: &[u8], src: &SourceSpec, ef: EF) -> Outcome {
     let rep = base.finish();
     let (leaked, dd, constructed, fired) = LEDGER.with(|l| {
         let l = l.borrow();
-        (l.live.len(), l.double_drops, l.constructed, l.fired)
+        (l.n_live, l.double_drops, l.constructed, l.fired)
     });
     Outcome { class, live_before_drop, leaked, double_drops: dd, constructed, net_heap: w.live, fired, calls, trace: rep.trace, foreign_panic }
 }
@@ -512,7 +522,15 @@ impl Scenario for LedgerScn {
         judge(c, n, "no fault", &dry, b.n_tr)?;
         let (read_calls, descend_calls, alloc_calls, all_calls, io_calls) = dry.calls;
         let layer_variants: Vec<Vec<Layer>> = vec![vec![], vec![Layer::Counted, Layer::Mem(u64::MAX)], vec![Layer::Depth(u32::MAX), Layer::Counted]];
+        // Big instances (N > 100): positions are sampled (every 61st, around multiples of the
+        // 1024-element chunk, first and last); complete otherwise.
+        let big = b.n_tr > 100;
+        let keep = |k: u32, total: u32| -> bool { !big || k % 61 == 0 || k + 2 >= total || (k % 1024 <= 2) || (k % 1024 >= 1022) };
+        let keep_byte = |k: usize, total: usize| -> bool { !big || k % 131 == 0 || k + 3 >= total || (k % 2048 <= 4) || (k % 2048 >= 2044) };
         for k in 0..b.n_tr {
+            if !keep(k, b.n_tr) {
+                continue;
+            }
             runs.push((format!("element decoder Err at element {k}"), b.bytes.clone(), src0.clone(), EF::ErrAt(k)));
             runs.push((format!("element decoder panic at element {k}"), b.bytes.clone(), src0.clone(), EF::PanicAt(k)));
         }
@@ -522,11 +540,17 @@ impl Scenario for LedgerScn {
             runs.push((format!("malformed zero-sized field #{zi}"), d, src0.clone(), EF::None));
         }
         for cut in 0..b.bytes.len() {
+            if !keep_byte(cut, b.bytes.len()) {
+                continue;
+            }
             let mut s = src0.clone();
             s.faults.push(Fault::EofAt { byte: cut as u32 });
             runs.push((format!("input exhausted after {cut} bytes"), b.bytes.clone(), s, EF::None));
         }
         for k in 1..=read_calls {
+            if !keep(k, read_calls + 1) {
+                continue;
+            }
             for partial in [false, true] {
                 let mut s = src0.clone();
                 s.faults.push(Fault::ReadErrAt { call: k, partial });
@@ -534,6 +558,9 @@ impl Scenario for LedgerScn {
             }
         }
         for k in 1..=io_calls {
+            if !keep(k, io_calls + 1) {
+                continue;
+            }
             let mut s = src0.clone();
             s.faults.push(Fault::IoErrAt { call: k, kind: k as u8 });
             runs.push((format!("io error at Read::read call {k}"), b.bytes.clone(), s, EF::None));
@@ -552,6 +579,9 @@ impl Scenario for LedgerScn {
             runs.push((format!("on_before_alloc_mem error at call {k}"), b.bytes.clone(), s, EF::None));
         }
         for k in 1..=all_calls {
+            if !keep(k, all_calls + 1) {
+                continue;
+            }
             let mut s = src0.clone();
             s.faults.push(Fault::InputPanicAt { call: k });
             runs.push((format!("panic inside the input at call {k}"), b.bytes.clone(), s, EF::None));
@@ -602,7 +632,7 @@ impl Scenario for LedgerScn {
                 return Err(v);
             }
         }
-        *st.exhaustive_parts.entry("fault_positions_enumerated".into()).or_insert(0) += total as u64;
+        *st.exhaustive_parts.entry(if big { "fault_positions_sampled_in_big_instances" } else { "fault_positions_enumerated_completely" }.into()).or_insert(0) += total as u64;
         st.sample(|| json!({"container": c.name, "N": n, "wire_len": b.bytes.len(), "elements": b.n_tr, "source": src0.describe(), "fault_positions_enumerated": total, "dry_run_calls": {"read": read_calls, "descend": descend_calls, "alloc_hook": alloc_calls, "all": all_calls, "io_read": io_calls}}));
         Ok(())
     }
